@@ -35,7 +35,7 @@ def run(tier, replay):
         if rc != 0 and vlib.died_in_dtail(out) >= 0:
             i = vlib.died_in_dtail(out)
             V.violation("the client process died handling a message: " + out[i:i + 100].splitlines()[0], {"output": out[i:i + 1500]})
-            return V.finish({"states": 0, "transitions": 0, "traces_validated_against_impl": 0, "evaluations": 0, "distinct_nontrivial": 0, "rule": "the run ended with the death of the client process", "exhaustive": False, "samples": []}, [])
+            return V.finish({"states": r.distinct, "transitions": r.generated, "traces_validated_against_impl": 0, "evaluations": 0, "distinct_nontrivial": 0, "rule": "the run ended with the death of the client process", "exhaustive": False, "samples": []}, [])
         if rc != 0 or not os.path.exists(oj):
             raise vlib.Inconclusive("harness failed (a panic outside recover kills it)\n" + out[-2500:])
         res = json.load(open(oj))
@@ -55,7 +55,7 @@ def run(tier, replay):
         if rc != 0 and vlib.died_in_dtail(out) >= 0:
             i = vlib.died_in_dtail(out)
             V.violation("the client process died handling a message: " + out[i:i + 100].splitlines()[0], {"output": out[i:i + 1500]})
-            return V.finish({"states": 0, "transitions": 0, "traces_validated_against_impl": 0, "evaluations": 0, "distinct_nontrivial": 0, "rule": "the run ended with the death of the client process", "exhaustive": False, "samples": []}, [])
+            return V.finish({"states": r.distinct, "transitions": r.generated, "traces_validated_against_impl": 0, "evaluations": 0, "distinct_nontrivial": 0, "rule": "the run ended with the death of the client process", "exhaustive": False, "samples": []}, [])
         if rc != 0 or not os.path.exists(ao):
             raise vlib.Inconclusive("aggregate payload harness failed\n" + out[-2500:])
         ares = json.load(open(ao))
@@ -66,7 +66,7 @@ def run(tier, replay):
         if rc != 0 and vlib.died_in_dtail(out) >= 0:
             i = vlib.died_in_dtail(out)
             V.violation("the client process died handling a message: " + out[i:i + 100].splitlines()[0], {"output": out[i:i + 1500]})
-            return V.finish({"states": 0, "transitions": 0, "traces_validated_against_impl": 0, "evaluations": 0, "distinct_nontrivial": 0, "rule": "the run ended with the death of the client process", "exhaustive": False, "samples": []}, [])
+            return V.finish({"states": r.distinct, "transitions": r.generated, "traces_validated_against_impl": 0, "evaluations": 0, "distinct_nontrivial": 0, "rule": "the run ended with the death of the client process", "exhaustive": False, "samples": []}, [])
         if rc != 0 or not os.path.exists(to):
             raise vlib.Inconclusive("result table harness failed\n" + out[-2500:])
         for b in json.load(open(to))["bad"] or []:
@@ -77,7 +77,7 @@ def run(tier, replay):
         if rc != 0 and vlib.died_in_dtail(out) >= 0:
             i = vlib.died_in_dtail(out)
             V.violation("the client process died handling a message: " + out[i:i + 100].splitlines()[0], {"output": out[i:i + 1500]})
-            return V.finish({"states": 0, "transitions": 0, "traces_validated_against_impl": 0, "evaluations": 0, "distinct_nontrivial": 0, "rule": "the run ended with the death of the client process", "exhaustive": False, "samples": []}, [])
+            return V.finish({"states": r.distinct, "transitions": r.generated, "traces_validated_against_impl": 0, "evaluations": 0, "distinct_nontrivial": 0, "rule": "the run ended with the death of the client process", "exhaustive": False, "samples": []}, [])
         if rc != 0 or not os.path.exists(so):
             raise vlib.Inconclusive("stream harness failed\n" + out[-2500:])
         sres = json.load(open(so))
